@@ -124,6 +124,10 @@ def _routes_strategy(tier):
         st.tuples(st.just("set"), st.integers(0, 8)),
         st.tuples(st.just("recreate"), st.integers(0, 8)),
         st.tuples(st.just("peek"), st.integers(0, 8)),
+        # an iterator obtained now, partly consumed, and finished only after later operations
+        st.tuples(st.just("open"), st.integers(0, 6)),
+        st.tuples(st.just("open_peek"), st.integers(0, 8), st.integers(0, 6)),
+        st.tuples(st.just("finish")),
     )
     return st.fixed_dictionaries({
         "kind": st.sampled_from(["random", "seq"]),
@@ -133,13 +137,13 @@ def _routes_strategy(tier):
         "mode": st.sampled_from(["drop", "uneven", "ignore", "raise"]),
         "seed": st.one_of(st.integers(0, 10), st.integers(0, 2**31 - 1)),
         "init_epoch": st.integers(0, 5),
-        "ops": st.lists(op, min_size=1, max_size=8),
+        "ops": st.lists(op, min_size=1, max_size=10),
     })
 
 
 @subcheck("C13", "routes", _routes_strategy, 800, 20000,
           doc="histories of iterate / set epoch / recreate-at-epoch / peek: order of epoch e depends on (seed, e) only",
-          required_classes=["two_routes"])
+          required_classes=["two_routes", "lazy_iterator_finished_after_other_calls"])
 def _routes_check(case):
     kind, N, W, mode, seed = case["kind"], case["N"], case["world"], case["mode"], case["seed"]
     rank = case["rank_frac"] % W
@@ -158,11 +162,42 @@ def _routes_check(case):
             seen[e] = order
             routes[e] = route
 
+    pending = []  # (epoch, iterator, items taken so far, route)
+    lazy_finished_late = False
+
+    def finish_all():
+        nonlocal lazy_finished_late
+        for e, it, taken, route, opened_at in pending:
+            taken.extend(_ints(it))
+            record(e, taken, route)
+            if opened_at < nops[0]:
+                lazy_finished_late = True
+        del pending[:]
+
+    nops = [0]
     with fakes.process_group(rank, W):
         s = _make(kind, N, case["init_epoch"], seed, mode)
         cur = case["init_epoch"]
         for op in case["ops"]:
-            if op[0] == "iter":
+            nops[0] += 1
+            if op[0] == "open":
+                it = iter(s)
+                taken = [int(next(it)) for _ in range(min(op[1], len(s)))]
+                pending.append((cur, it, taken, "lazy-iterate", nops[0]))
+                cur += 1
+                require(s.epoch == cur, "epoch counter not advanced by one", s.epoch, cur)
+            elif op[0] == "open_peek":
+                it = iter(s.get_samples_for_epoch(op[1]))
+                taken = []
+                for _ in range(op[2]):
+                    try:
+                        taken.append(int(next(it)))
+                    except StopIteration:
+                        break
+                pending.append((op[1], it, taken, "lazy-get_samples_for_epoch", nops[0]))
+            elif op[0] == "finish":
+                finish_all()
+            elif op[0] == "iter":
                 n_decl = len(s)
                 order = _ints(iter(s))
                 require(n_decl == len(order), "len(sampler) != yielded", n_decl, len(order))
@@ -181,6 +216,7 @@ def _routes_check(case):
                 order = _ints(s.get_samples_for_epoch(op[1]))
                 record(op[1], order, "get_samples_for_epoch")
                 require(s.epoch == cur, "peeking changed the epoch counter", s.epoch, cur)
+        finish_all()
         # from-zero route for every epoch seen
         z = _make(kind, N, 0, seed, mode)
         upto = max(seen) if seen else -1
@@ -207,6 +243,8 @@ def _routes_check(case):
         classes.append("two_routes")
     if W >= 2:
         classes.append("distributed")
+    if lazy_finished_late:
+        classes.append("lazy_iterator_finished_after_other_calls")
     return Info(nontrivial=bool(multi) and N >= 2, classes=classes)
 
 
